@@ -39,7 +39,7 @@ Inherits(kind) == kind \in {"lateral", "where_sub"}
 
 (* ------------------------------ generator ------------------------------ *)
 CONSTANTS K, Focus
-Shapes  == {"single", "join", "derived", "cte", "cte_cols", "where_sub", "lateral", "illegal_sibling", "illegal_unknown", "ambiguous", "union"}
+Shapes  == {"single", "join", "derived", "cte", "cte_cols", "where_sub", "lateral", "illegal_sibling", "illegal_unknown", "ambiguous", "union", "derived_join"}
 Quals   == {"none", "partial", "full"}
 Stars   == {"none", "bare", "qualified", "except", "replace", "qualified_replace", "qualified_except"}
 Orders  == {"none", "alias", "alias_case", "col", "position", "expr"}
